@@ -58,6 +58,10 @@ type plan struct {
 	MaxSize int64
 	Phases  [][]op
 	Tape    []uint64
+	// queue mode: where crash images fall - 0 = at two write events in three
+	// from the start of a phase (dense, early), 1 = about one in six, 2 =
+	// about one in twenty (spread over the whole phase)
+	ImageMode int
 	Script  []string // processor mode: outcome per WriteShardBinary call
 	Removed []int    // processor mode: fake seconds at which the node is removed/restored (toggle)
 }
@@ -170,6 +174,7 @@ func genPlan(t *rapid.T) interface{} {
 	p.MaxSize = rapid.SampledFrom([]int64{1 << 40, 1 << 40, 2000, 600}).Draw(t, "maxsize")
 	purge := rapid.IntRange(0, 3).Draw(t, "purge") == 0
 	depth := rapid.IntRange(1, 3).Draw(t, "depth")
+	p.ImageMode = rapid.IntRange(0, 2).Draw(t, "image_mode")
 	for d := 0; d < depth; d++ {
 		max := 25
 		if d > 0 {
@@ -274,6 +279,7 @@ func (r *qrunner) phase(dir string, depth int, m *qmodel, recovered *qimage, lab
 	var curApp *block
 	curAdv := false
 	curKind := ""
+	opIdx := 0 // index of the operation in flight, for the reach probes
 	var pre []byte
 	var preOff int64
 	var preN int
@@ -334,9 +340,26 @@ func (r *qrunner) phase(dir string, depth int, m *qmodel, recovered *qimage, lab
 		}
 		images = append(images, im)
 		run.Fault("crash")
+		if opIdx >= 10 {
+			run.Probe("crash-after-ten-or-more-operations")
+		}
+		if len(m.all)-m.head >= 4 {
+			run.Probe("crash-with-four-or-more-blocks-pending")
+		}
 	}
 	handler := func(ev string, args ...interface{}) {
 		path, _ := args[0].(string)
+		// value 0 (what shrinking converges to) means "no image here"
+		takeImage := func() bool {
+			switch v := r.tape.Next(); r.p.ImageMode {
+			case 1:
+				return v%6 == 1
+			case 2:
+				return v%20 == 1
+			default:
+				return v%3 != 0
+			}
+		}
 		switch ev {
 		case "hh.write.begin":
 			pre, _ = os.ReadFile(path)
@@ -347,7 +370,7 @@ func (r *qrunner) phase(dir string, depth int, m *qmodel, recovered *qimage, lab
 		case "hh.write.end":
 			stamp(path)
 			run.Logf("%s ev %s %s", label, ev, filepath.Base(path))
-			if budget <= 0 || path != prePath || r.tape.Next()%3 == 0 {
+			if budget <= 0 || path != prePath || !takeImage() {
 				return
 			}
 			budget--
@@ -389,7 +412,7 @@ func (r *qrunner) phase(dir string, depth int, m *qmodel, recovered *qimage, lab
 			mkImage(fmt.Sprintf("%s cut %d/%d", ev, k, preN), path, img, k > 0 && k < preN)
 		case "hh.truncated":
 			run.Logf("%s ev %s %s", label, ev, filepath.Base(path))
-			if budget > 0 && r.tape.Next()%3 != 0 {
+			if budget > 0 && takeImage() {
 				budget--
 				mkImage(ev, path, nil, false)
 			}
@@ -397,7 +420,7 @@ func (r *qrunner) phase(dir string, depth int, m *qmodel, recovered *qimage, lab
 			stamp(path)
 		case "hh.removed":
 			run.Logf("%s ev %s %s", label, ev, filepath.Base(path))
-			if budget > 0 && r.tape.Next()%3 != 0 {
+			if budget > 0 && takeImage() {
 				budget--
 				mkImage(ev, path, nil, false)
 				run.Probe("crash-after-head-trim")
@@ -654,6 +677,7 @@ func (r *qrunner) phase(dir string, depth int, m *qmodel, recovered *qimage, lab
 		core.Progress()
 		run.Op(o.Kind)
 		run.Logf("%s op%d %s size=%d", label, i, o.Kind, o.Size)
+		opIdx = i
 		switch o.Kind {
 		case "append":
 			appendBlock(i, o.Size)
